@@ -1213,10 +1213,10 @@ class Fn:
         if lo > hi:
             return False
         if (lo, hi) != (ci[1], ci[2]):
-            saved = (dict(st.copy), dict(st.cmp), dict(st.dsc), dict(st.ver), dict(st.lenof), st.nz)
+            saved = (dict(st.copy), dict(st.cmp), dict(st.dsc), dict(st.ver), dict(st.lenof), st.nz, st.ordf)
             self.write(st, l, proj, ("i", lo, hi))
             # refinement is not a redefinition: restore facts and versions
-            st.copy, st.cmp, st.dsc, st.ver, st.lenof, st.nz = saved
+            st.copy, st.cmp, st.dsc, st.ver, st.lenof, st.nz, st.ordf = saved
             if not proj and l in st.lenof:
                 self.refine_len(st, st.lenof[l], lo, hi)
         # every local that is a plain copy of the same origin holds the same runtime value
@@ -1247,9 +1247,9 @@ class Fn:
         if nlo > nhi:
             return
         if (nlo, nhi) != (ex[1], ex[2]):
-            saved = (dict(st.copy), dict(st.cmp), dict(st.dsc), dict(st.ver), dict(st.lenof), st.nz)
+            saved = (dict(st.copy), dict(st.cmp), dict(st.dsc), dict(st.ver), dict(st.lenof), st.nz, st.ordf)
             self.write(st, l, proj, ("l", nlo, nhi, ex[3]))
-            st.copy, st.cmp, st.dsc, st.ver, st.lenof, st.nz = saved
+            st.copy, st.cmp, st.dsc, st.ver, st.lenof, st.nz, st.ordf = saved
 
     def apply_cmp(self, st, fact, truth):
         """refine by comparison fact; returns False if the branch is infeasible"""
